@@ -3,9 +3,9 @@ CONSTANTS MAXKILL = 1
  W = 5
  NSTEPS = 5
  CacheMode = "state"
- Layout = "sparse"
- CompactMode = "output"
+ Layout = "dense"
+ CompactMode = "everystep"
  NpidMode = "count"
 SPECIFICATION Spec
-INVARIANT EmitScenario
+INVARIANT DenseAddressing
 CHECK_DEADLOCK FALSE
